@@ -444,8 +444,8 @@ def streams(tier):
     n = 1 if tier == "quick" else 12
     mk = lambda name, gen, k: (core.Stream(name, "stats", gen, predicate, nontrivial, canon=canon, keep_prefix=1, hint=hint,
                                            oracle_args=ORACLE_ARGS), k)
-    return [mk("stats-session", gen_session, 120 * n), mk("stats-deliver", gen_deliver, 80 * n), mk("stats-drops", gen_drops, 100 * n),
-            mk("stats-refused", gen_refused, 40 * n)]
+    return [mk("stats-session", gen_session, 180 * n), mk("stats-deliver", gen_deliver, 100 * n), mk("stats-drops", gen_drops, 150 * n),
+            mk("stats-refused", gen_refused, 50 * n)]
 
 def _why(info):
     return info.get("why") or ""
